@@ -234,21 +234,36 @@ func partialWitness(obs, snapshot *btModel, infl []inflightOp) string {
 			if len(drop) == 0 || famsString(t.Fams) != famsString(o.Fams) {
 				continue
 			}
+			// a request may drop several families: they are purged one after the other, so a row
+			// may have lost any subset of them (still none of the families it was not told to drop)
+			var dropped []string
+			for f := range drop {
+				dropped = append(dropped, f)
+			}
+			sort.Strings(dropped)
 			ok, purged := true, 0
 			for k, row := range t.Rows {
-				p := row.clone()
-				for f := range drop {
-					delete(p, f)
-				}
-				p.prune()
 				or, present := o.Rows[k]
-				switch {
-				case present && equalRows(or.render(k), row.render(k)):
-				case present && !p.empty() && equalRows(or.render(k), p.render(k)):
-					purged++
-				case !present && p.empty():
-					purged++
-				default:
+				matched := false
+				for mask := 0; mask < 1<<uint(len(dropped)) && !matched; mask++ {
+					p := row.clone()
+					for i, f := range dropped {
+						if mask&(1<<uint(i)) != 0 {
+							delete(p, f)
+						}
+					}
+					p.prune()
+					switch {
+					case present && !p.empty() && equalRows(or.render(k), p.render(k)):
+						matched = true
+					case !present && p.empty():
+						matched = true
+					}
+					if matched && !(present && equalRows(or.render(k), row.render(k))) {
+						purged++
+					}
+				}
+				if !matched {
 					ok = false
 				}
 			}
